@@ -87,6 +87,7 @@ func (Keeper).addGrant
 // C11 (and C09): applying a schedule to an account keeps every release event of the granted coins at the
 // absolute time it has in the schedule anchored at startTime - nothing unlocks or vests earlier - and
 // every event the account already had stays where it was.
+alias EthAcct github.com/haqq-network/haqq/types.EthAccount
 func (Keeper).ApplyVestingSchedule
     ghostvar u int
     let s = time_unix(startTime)
@@ -118,6 +119,10 @@ func (Keeper).ApplyVestingSchedule
             acc.DelegatedFree == cone(sk_bonddenom(SK, ctx), sk_bonded(SK, ctx, funded) + sk_unbonding(SK, ctx, funded))
     call GetDelegatorBonded requires own_bonded: delegator == funded
     call GetDelegatorUnbonding requires own_unbonding: delegator == funded
+    // C03 (replay protection survives the conversion): a converted account keeps the base account object of the account it replaces -
+    // address, account number, public key and above all the sequence number
+    ensures c03_converted_base: result.3 == nil && !result.1 && !result.2 ==> typeis(ret(GetAccount, 1, 0), *EthAcct)
+            && acc.BaseAccount == cast(ret(GetAccount, 1, 0), *EthAcct).BaseAccount
     ensures merged_fields: result.3 == nil && result.2 ==> acc.FunderAddress == addr_string(funder) && acc.FunderAddress == old(acc.FunderAddress)
             && cva_addr(*acc) == funded && ciszero(acc.DelegatedVesting)
             && acc.DelegatedFree == cone(sk_bonddenom(SK, ctx), sk_bonded(SK, ctx, funded) + sk_unbonding(SK, ctx, funded))
